@@ -135,6 +135,71 @@ def leanchecker(ctx, pid):
     return rc == 0
 
 
+def anchored_files(pid):
+    try:
+        with open(os.path.join(VERIF, 'properties.jsonl')) as f:
+            for line in f:
+                pr = json.loads(line)
+                if pr.get('id') == pid:
+                    return [x for x in pr.get('anchors', {}).get('files', []) if '*' not in x]
+    except (OSError, ValueError):
+        pass
+    return []
+
+
+class ImplCoverage:
+    """which statements of the anchored source files did the harness actually execute (in-process calls only)?  Reported in the
+    evidence so that 'what the correspondence covered' is measured on the implementation side too, function by function."""
+
+    def __init__(self, pid):
+        self.files = anchored_files(pid)
+        self.cov = None
+        if os.environ.get('VERIF_COV', '1') == '0' or not self.files:
+            return
+        try:
+            import coverage
+            self.cov = coverage.Coverage(data_file=None, config_file=False, include=[os.path.join(REPO, 'odak', '*')])
+            self.cov.start()
+        except Exception:
+            self.cov = None
+
+    def finish(self):
+        if self.cov is None:
+            return None
+        import ast as _ast
+        try:
+            self.cov.stop()
+            out = {}
+            for rel in self.files:
+                path = os.path.join(REPO, rel)
+                if not os.path.exists(path):
+                    continue
+                try:
+                    _, stmts, _, missing, _ = self.cov.analysis2(path)
+                except Exception:
+                    continue
+                stmts, missing = set(stmts), set(missing)
+                with open(path) as f:
+                    tree = _ast.parse(f.read())
+                fn_hit, fn_miss = [], []
+
+                def visit(node, prefix):
+                    for ch in _ast.iter_child_nodes(node):
+                        if isinstance(ch, (_ast.FunctionDef, _ast.AsyncFunctionDef)):
+                            body = set(range(ch.body[0].lineno, ch.end_lineno + 1)) & stmts
+                            (fn_hit if body - missing else fn_miss).append(prefix + ch.name)
+                            visit(ch, prefix + ch.name + '.')
+                        elif isinstance(ch, _ast.ClassDef):
+                            visit(ch, prefix + ch.name + '.')
+                visit(tree, '')
+                out[rel] = {'statements': len(stmts), 'executed': len(stmts - missing),
+                            'functions_exercised': len(fn_hit), 'functions_total': len(fn_hit) + len(fn_miss),
+                            'functions_not_exercised': sorted(fn_miss)[:60]}
+            return out
+        except Exception as e:
+            return {'error': repr(e)}
+
+
 def main():
     ap = argparse.ArgumentParser()
     ap.add_argument('pid')
@@ -174,11 +239,16 @@ def main():
         return au
 
     def run_harness(c):
+        ic = ImplCoverage(pid)
         try:
             mod.run(c)
         except Exception:
             tb = traceback.format_exc()
             c.alarm('harness', 'harness error: ' + tb[-1500:])
+        finally:
+            res = ic.finish()
+            if res is not None:
+                c.extra['implementation_statement_coverage_of_anchored_files'] = res
 
     def unknown_violations(c):
         findings = core.load_findings()
